@@ -51,7 +51,7 @@ func runCorpus(g *gen) {
 				}
 			}
 		}
-		follow := reqSpec{cutAt: -1, uid: f[1] + "f", parts: []partSpec{{"file", "next.txt", "uid: " + f[1] + "f\nBenchmarkNext 1 1 ns/op\n"}}}
+		follow := reqSpec{cutAt: -1, uid: f[1] + "f", parts: []partSpec{{form: "file", fname: "next.txt", content: "uid: " + f[1] + "f\nBenchmarkNext 1 1 ns/op\n"}}}
 		g.emit(&scenario{user: user, store: f[3], reqs: []reqSpec{rq, follow}, tags: []string{"corpus-" + f[0]}})
 	}
 }
